@@ -109,7 +109,7 @@ theorem phaseH (r : Routine) (ps : PrefixSlices r) (s0 : State) (hG : s0.gpr.len
     (hK : s0.kreg.length = 8) (rk : List Nat) (np tp ap : Nat) (nonce aad : List Nat) (e : FEnv s0 rk np tp ap nonce aad)
     (hrk : rk.length = 32) (hrkb : ∀ x ∈ rk, x < 2 ^ 32) :
     ∃ s1, Reach r 0 s0 549 s1 549 ∧ PCtx s1 ∧ FEnv s1 rk np tp ap nonce aad ∧
-      vreg s1 19 = unlanes 8 (encB rk (List.replicate 16 0)) ∧ greg s1 15 = 73014444032 ∧ s1.mem = s0.mem := by
+      vreg s1 19 = unlanes 8 (encB rk (List.replicate 16 0)) ∧ greg s1 15 = 73014444032 ∧ (s1.mem = s0.mem ∧ s1.frame = s0.frame) := by
   -- cryptoPrepare
   obtain ⟨sa, hra, pa, v6a, hma, hfa⟩ := prep_spec s0 ⟨hG, hV, hK, e.syms, e.rAnd, e.rLower, e.rShuffle, e.rPre, e.rPost, e.rAdd1, e.rAdd2, e.rAdd3⟩
   have ea := e.transport hma (pa.syms.trans e.syms.symm) hfa
@@ -133,7 +133,7 @@ theorem phaseH (r : Routine) (ps : PrefixSlices r) (s0 : State) (hG : s0.gpr.len
     ⟨by simp, rfl, rfl, fun n hn => greg_setGreg_ne sa 15 _ n (by intro e; subst e; simp [oneKeepG] at hn), fun _ _ => rfl,
       fun _ _ => rfl, rfl, rfl, rfl⟩
   refine ⟨sc, ((ra.trans rb).trans rc).cast rfl rfl, pa.of_keeps (kb.trans kc) (by decide), ea.of_keeps (kb.trans kc), vc, gc,
-    (kb.trans kc).mem.trans hma⟩
+    ⟨(kb.trans kc).mem.trans hma, (kb.trans kc).frame.trans hfa⟩⟩
 
 
 theorem encB_length (rk pb : List Nat) : (encB rk pb).length = 16 := by
@@ -158,7 +158,7 @@ theorem phaseGh (r : Routine) (ps : PrefixSlices r) (s1 : State) (rk : List Nat)
     (pc : PCtx s1) (e : FEnv s1 rk np tp ap nonce aad) (h19 : vreg s1 19 = unlanes 8 (encB rk (List.replicate 16 0)))
     (g15 : greg s1 15 = 73014444032) :
     ∃ s2, Reach r 549 s1 628 s2 79 ∧ PCtx s2 ∧ FEnv s2 rk np tp ap nonce aad ∧ GhCtx (hKey rk) s2 ∧ greg s2 15 = 73014444032 ∧
-      s2.mem = s1.mem := by
+      (s2.mem = s1.mem ∧ s2.frame = s1.frame) := by
   obtain ⟨s2, hr, hc, kp⟩ := ghPre_spec s1 ⟨pc.lenG, pc.lenV, pc.lenK, pc.syms, e.rPoly, e.rIdx, e.rH01, e.rH23⟩ pc.v22 pc.v23 pc.v24
     (by rw [h19]; exact encB_lt _ _)
   rw [h19] at hc
@@ -167,6 +167,6 @@ theorem phaseGh (r : Routine) (ps : PrefixSlices r) (s1 : State) (rk : List Nat)
     have := reach_seg ps.ghPre ghPre_nc hr
     rw [len_ghPre] at this; exact this
   exact ⟨s2, rr, pc2, e.of_keeps kp, ⟨pc2.lenG, pc2.lenV, pc2.lenK, pc2.v22, pc2.v23, pc2.v24, hc⟩,
-    by rw [kp.g 15 (by decide)]; exact g15, kp.mem⟩
+    by rw [kp.g 15 (by decide)]; exact g15, ⟨kp.mem, kp.frame⟩⟩
 
 end SMGo.Proofs.ISAVal
